@@ -57,3 +57,7 @@ package lazyproto
 //@   noframe
 //@   loop 1: locals dec *csproto.Decoder
 //@   loop 1: invariant csproto.GocvDecOK(dec) && flatOK(r)
+
+//@ func wireTypeMismatchError(got csproto.WireType, supported ...csproto.WireType) (e *WireTypeMismatchError)
+//@   trusted assembles an error message with fmt, sort and strings; the message text is not modelled
+//@   ensures e != nil
